@@ -18,6 +18,10 @@ class NoResult(Exception):
     pass
 
 
+class Ambiguous(Exception):
+    """The statement does not decide this pairing (alias spelled in another namespace than the writer's type)."""
+
+
 def names_match(w, r):
     """Named types: same unqualified name, or a reader alias naming the writer's type."""
     wu = split_full(w["name"])[1]
@@ -25,8 +29,13 @@ def names_match(w, r):
     if wu == ru:
         return True
     for a in r.get("aliases", []):
-        if a == w["name"] or split_full(a)[1] == wu:
+        if a == w["name"]:
             return True
+    for a in r.get("aliases", []):
+        if split_full(a)[1] == wu:
+            # same unqualified name but another namespace: the specification (full-name aliases) and the
+            # "unqualified name" reading disagree; nothing is asserted
+            raise Ambiguous(f"alias {a} vs writer {w['name']}")
     return False
 
 
